@@ -15,6 +15,7 @@ import (
 	"github.com/corazawaf/coraza/v3/experimental/plugins/plugintypes"
 	"github.com/corazawaf/coraza/v3/internal/collections"
 	"github.com/corazawaf/coraza/v3/internal/environment"
+	"github.com/corazawaf/coraza/v3/internal/verif"
 )
 
 type multipartBodyProcessor struct{}
@@ -61,6 +62,10 @@ func (mbp *multipartBodyProcessor) ProcessRequest(reader io.Reader, v plugintype
 			seenUnexpectedEOF := false
 			if environment.HasAccessToFS {
 				// Only copy file to temp when not running in TinyGo
+				if err := verif.Fault("mp.createtemp"); err != nil {
+					v.MultipartStrictError().(*collections.Single).Set("1")
+					return err
+				}
 				temp, err := os.CreateTemp(storagePath, "crzmp*")
 				if err != nil {
 					v.MultipartStrictError().(*collections.Single).Set("1")
@@ -68,6 +73,9 @@ func (mbp *multipartBodyProcessor) ProcessRequest(reader io.Reader, v plugintype
 				}
 				defer temp.Close()
 				sz, err := io.Copy(temp, p)
+				if ferr := verif.Fault("mp.copy"); ferr != nil {
+					err = ferr
+				}
 				if err != nil {
 					if !errors.Is(err, io.ErrUnexpectedEOF) {
 						v.MultipartStrictError().(*collections.Single).Set("1")
